@@ -380,7 +380,7 @@ var siteRemarks = map[string]string{
 // RunMapOrder is exploration 1.
 // Designs in full get the complete deviation menu, the others the reduced one; designs in pairs
 // additionally get the bound-2 deviations.
-func RunMapOrder(c *core.Ctx, e *Env, designs []*DesignRef, full, pairDesigns map[string]bool) []*baseline {
+func RunMapOrder(c *core.Ctx, e *Env, designs []*DesignRef, full, pairDesigns map[string]bool) ([]*baseline, map[string]map[string]bool) {
 	m := newMapOrder(c, e)
 	bases := m.runBaselines(designs)
 	run := func(jobs []devJob, what string) {
@@ -481,5 +481,5 @@ func RunMapOrder(c *core.Ctx, e *Env, designs []*DesignRef, full, pairDesigns ma
 	c.Note("map_order_designs_not_generated_by_goa", m.stats.notGenerated)
 	c.Note("map_order_bound1_runs", m.stats.deviations)
 	c.Note("map_order_bound2_runs", m.stats.pairs)
-	return bases
+	return bases, m.failing
 }
